@@ -89,6 +89,10 @@ fn main() {
             }
         }
     }
+    let timeouts = model::TIMEOUTS.load(std::sync::atomic::Ordering::Relaxed);
+    if timeouts > 0 {
+        ctx.rep.notes.push(format!("{} model line(s) exceeded the driver time limit and were not compared", timeouts));
+    }
     let mut j = ctx.rep.to_json();
     j.put("harness_wall_s", J::Num(t0.elapsed().as_secs_f64()));
     j.put("hooks", J::Bool(ctx.hooks));
